@@ -18,6 +18,8 @@ class Constant(ASTNode):
         if isinstance(self.value, str) and self.with_quotes:
             val = self.value.replace("'", "\\'")
             out_str = f"\'{val}\'"
+        elif self.value is None:
+            out_str = 'NULL'
         elif isinstance(self.value, bool):
             out_str = 'TRUE' if self.value else 'FALSE'
         elif isinstance(self.value, (dt.date, dt.datetime, dt.timedelta)):
